@@ -66,6 +66,10 @@ type rlOpts struct {
 	Anchor   bool `json:"anchor"`   // add a `key:id62` sibling (brings buf/validate + j5 ext imports in: C07 work-around)
 	MarkForm bool `json:"markForm"` // presence as `!` / `?` mark instead of `required = true` in the body
 	EnumNums bool `json:"enumNums"` // enum options carry explicit `number = i`
+	// Siblings: the message also holds required keys of both formats, a flattened object, a ruled timestamp and a
+	// unique array BEFORE the subject: whatever the compiler shares between fields of one kind must not leak into the subject
+	Siblings bool `json:"siblings"`
+	ZeroPrefixed bool `json:"zeroPrefixed"` // the enum declares its zero option explicitly, spelled with the prefix (COLOR_UNSPECIFIED)
 	AcroName bool `json:"acroName"` // the subject property is spelled subjectID (proto subject_id): the JSON name is the declared one
 }
 
@@ -327,6 +331,12 @@ func rlFieldText(name string, d *rlDecl, o rlOpts, indent string) string {
 	return strings.Join(lines, "\n") + "\n"
 }
 
+// the sibling fields of rlOpts.Siblings, with the names and proto field paths they occupy
+const rlSiblingText = "  field sibKey ! key:id62\n\n  field sibUuid ! key:uuid\n\n  field sibFlat object:SibInner {\n    flatten = true\n  }\n\n" +
+	"  field sibWhen ! timestamp {\n    rules.exclusiveMinimum = true\n  }\n\n  field sibTags ! array:string {\n    rules.uniqueItems = true\n    rules.minItems = 1\n  }\n\n"
+
+var rlSiblingNames = []string{"sibKey", "sibUuid", "sibFlat", "sibWhen", "sibTags"}
+
 // rlUnit is one compiled declaration: object <Msg> { [anchor] subject }.
 type rlUnit struct {
 	Msg  string
@@ -337,11 +347,15 @@ type rlUnit struct {
 func rlFileText(units []rlUnit, o rlOpts) string {
 	var sb strings.Builder
 	sb.WriteString("package " + rlPkg + "\n\n")
-	usesEnum, usesObj, zeroNamed := false, false, false
+	usesEnum, usesObj, zeroNamed, usesSib := false, false, false, false
 	for _, u := range units {
 		sb.WriteString("object " + u.Msg + " {\n")
 		if o.Anchor {
 			sb.WriteString("  field anchor key:id62\n\n")
+		}
+		if o.Siblings {
+			sb.WriteString(rlSiblingText)
+			usesSib = true
 		}
 		sb.WriteString(rlFieldText(rlSubject(o), u.Decl, o, "  "))
 		sb.WriteString("}\n\n")
@@ -355,7 +369,10 @@ func rlFileText(units []rlUnit, o rlOpts) string {
 	}
 	if usesEnum {
 		sb.WriteString("enum Color {\n")
-		if zeroNamed {
+		if o.ZeroPrefixed {
+			// ... also under its full name, as in a schema ported from protobuf
+			sb.WriteString("  option COLOR_UNSPECIFIED\n")
+		} else if zeroNamed {
 			// R "Enum": the zero value may be "explicitly included (as UNSPECIFIED)"; needed to name it in a rule
 			sb.WriteString("  option UNSPECIFIED\n")
 		}
@@ -367,6 +384,9 @@ func rlFileText(units []rlUnit, o rlOpts) string {
 			}
 		}
 		sb.WriteString("}\n\n")
+	}
+	if usesSib {
+		sb.WriteString("object SibInner {\n  field sibInnerName string\n}\n\n")
 	}
 	if usesObj {
 		sb.WriteString("object Inner {\n  field innerName string\n  field innerCount integer:INT32\n}\n\n")
